@@ -278,7 +278,7 @@ func (tx *Tx) rangeScanOnDisk(bucket string, start, end []byte) ([]*Entry, error
 
 	// sort a copy: read transactions run concurrently and share the slice
 	bptSparseIdxGroup := append([]*BPTreeRootIdx(nil), tx.db.BPTreeRootIdxes...)
-	verifAccess("rootidxes", true, tx.db)
+	verifAccess("rootidxes", false, tx.db)
 
 	SortFID(bptSparseIdxGroup, func(p, q *BPTreeRootIdx) bool {
 		return p.fID > q.fID
@@ -313,7 +313,7 @@ func (tx *Tx) prefixScanOnDisk(bucket string, prefix []byte, offsetNum int, limi
 
 	// sort a copy: read transactions run concurrently and share the slice
 	bptSparseIdxGroup := append([]*BPTreeRootIdx(nil), tx.db.BPTreeRootIdxes...)
-	verifAccess("rootidxes", true, tx.db)
+	verifAccess("rootidxes", false, tx.db)
 	SortFID(bptSparseIdxGroup, func(p, q *BPTreeRootIdx) bool {
 		return p.fID > q.fID
 	})
@@ -352,7 +352,7 @@ func (tx *Tx) prefixSearchScanOnDisk(bucket string, prefix []byte, reg string, o
 
 	// sort a copy: read transactions run concurrently and share the slice
 	bptSparseIdxGroup := append([]*BPTreeRootIdx(nil), tx.db.BPTreeRootIdxes...)
-	verifAccess("rootidxes", true, tx.db)
+	verifAccess("rootidxes", false, tx.db)
 	SortFID(bptSparseIdxGroup, func(p, q *BPTreeRootIdx) bool {
 		return p.fID > q.fID
 	})
